@@ -680,20 +680,20 @@ func (e *Engine) nvVariants(b primitives.MemberId, v uint64, proofs []proofSrc, 
 				}
 			}
 			// embedded PREPREPARE changed
-			pp := ppA
+			pp := gpp
 			pp.V = V + 1
-			mk("pp-other-view", votes, V, pp, me, me, blkA)
-			pp = ppA
+			mk("pp-other-view", votes, V, pp, me, me, gblk)
+			pp = gpp
 			pp.H = H + 1
-			mk("pp-other-height", votes, V, pp, me, me, blkA)
-			pp = ppA
+			mk("pp-other-height", votes, V, pp, me, me, gblk)
+			pp = gpp
 			pp.I = kit.Instance + 1
-			mk("pp-other-instance", votes, V, pp, me, me, blkA)
-			mk("pp-sig-garbage", votes, V, ppA, signerT{ID: b, Mode: "garbage"}, me, blkA)
-			mk("pp-other-sender", votes, V, ppA, signerT{ID: owned[len(owned)-1], Mode: "valid"}, me, blkA)
-			mk("header-sig-garbage", votes, V, ppA, me, signerT{ID: b, Mode: "garbage"}, blkA)
-			mk("nil-block", votes, V, ppA, me, me, nil)
-			mk("other-block", votes, V, ppA, me, me, kit.NewBlock(1, "OTHER"))
+			mk("pp-other-instance", votes, V, pp, me, me, gblk)
+			mk("pp-sig-garbage", votes, V, gpp, signerT{ID: b, Mode: "garbage"}, me, gblk)
+			mk("pp-other-sender", votes, V, gpp, signerT{ID: owned[len(owned)-1], Mode: "valid"}, me, gblk)
+			mk("header-sig-garbage", votes, V, gpp, me, signerT{ID: b, Mode: "garbage"}, gblk)
+			mk("nil-block", votes, V, gpp, me, me, nil)
+			mk("other-block", votes, V, gpp, me, me, kit.NewBlock(1, "OTHER"))
 			for _, vw := range []uint64{v + uint64(len(cfg.C)), 1 << 63, ^uint64(0)} {
 				vs := append([]voteT{}, votes...)
 				for i := range vs {
@@ -701,9 +701,9 @@ func (e *Engine) nvVariants(b primitives.MemberId, v uint64, proofs []proofSrc, 
 						vs[i].V = primitives.View(vw)
 					}
 				}
-				pp := ppA
+				pp := gpp
 				pp.V = primitives.View(vw)
-				mk("view-jump", vs, primitives.View(vw), pp, me, me, blkA)
+				mk("view-jump", vs, primitives.View(vw), pp, me, me, gblk)
 			}
 		}
 	}
